@@ -83,9 +83,10 @@ type OrLabelMatcher struct {
 
 // Process implements Processor.
 func (m *OrLabelMatcher) Process(ts otelstorage.Timestamp, line string, set LabelSet) (_ string, keep bool) {
-	line, keep = m.Left.Process(ts, line, set)
-	if keep {
-		return line, keep
+	// NOTE: a filter that drops the record may return an empty line, so
+	// pass the original line to the right side.
+	if newLine, keep := m.Left.Process(ts, line, set); keep {
+		return newLine, keep
 	}
 	return m.Right.Process(ts, line, set)
 }
